@@ -5,6 +5,8 @@ import ThriftVerif.Facts.ExpectWire
 #print axioms ThriftVerif.Properties.C03.lazy_canonical
 #print axioms ThriftVerif.Properties.C03.readers_agree
 #print axioms ThriftVerif.Properties.C03.skip_of_decode
+#print axioms ThriftVerif.Properties.C03.lazy_decode_ends_where_skip_ends
+#print axioms ThriftVerif.Properties.C03.skip_result_fuel_independent
 #print axioms ThriftVerif.Properties.C03.read_segmentation_irrelevant
 #print axioms ThriftVerif.Properties.C03.bool_strict
 #print axioms ThriftVerif.Properties.C03.negative_length_rejected
